@@ -573,4 +573,10 @@ def R4_who_may_write(ctx):
         ctx.check(ok and not others, "helper:%s" % m, "%s does not insert exactly (InputField::%s, its argument) into the query object" % (m, fld), b.where(), detail="insert(%s, value)" % fld)
 
 
-RULES = [R1_tolerance_units, R2_nearest_admissible, R3_no_partial_write, R4_who_may_write, R5_configured_tolerance]
+def R6_restriction_table(ctx):
+    """the edge matcher filters by the same restriction table the frontier model uses: the shared loader keeps every row of an edge (shared with C04.R6)"""
+    from props.C04 import R6_plumbing
+    R6_plumbing(ctx)
+
+
+RULES = [R1_tolerance_units, R2_nearest_admissible, R3_no_partial_write, R4_who_may_write, R5_configured_tolerance, R6_restriction_table]
